@@ -1131,6 +1131,9 @@ void disasm_range_xtensa(
 
     printf("0x%04x: %s  %-40s\n", start, bytes, instruction);
 
+    // An undecodable opcode has no length: step over it instead of going backwards.
+    if (count < 1) { count = 1; }
+
     start += count;
   }
 }
